@@ -9,6 +9,7 @@ import (
 	"encoding/json"
 	"fmt"
 	"os"
+	"runtime/debug"
 	"sort"
 	"strings"
 )
@@ -66,6 +67,11 @@ func (o *orch) inconclusive(j *job, what string) {
 
 func (o *orch) runJob(j *job) {
 	c := o.c
+	defer func() {
+		if e := recover(); e != nil {
+			o.inconclusive(j, fmt.Sprintf("harness failure while judging the case: %v\n%s", e, debug.Stack()))
+		}
+	}()
 	c.Eval()
 	// emulation twice: self-stability
 	e1 := o.runCase(j.caseFor(j.pair.Emu, false))
